@@ -1661,8 +1661,16 @@ impl FixWord {
         let alpha = z * alpha; // alpha = 16 * design_size
 
         // TeX.2021.571 (store_scaled)
-        let [a, b, c, d] = self.0.to_be_bytes();
-        assert!(a == 0 || a == 255);
+        // TeX rejects a font with a fix word that is not in [-16, 16). So that
+        // this function is total, such a value is clamped to that range.
+        let clamped = if self.0 >= 1 << 24 {
+            (1 << 24) - 1
+        } else if self.0 < -(1 << 24) {
+            -(1 << 24)
+        } else {
+            self.0
+        };
+        let [a, b, c, d] = clamped.to_be_bytes();
         let sw = (((z * (d as i32)) / 0o400 + (z * (c as i32))) / 0o400 + z * (b as i32)) / beta;
         if a == 255 {
             // In this case self < 0.
